@@ -28,6 +28,12 @@ pub struct Ctx {
     pub rules: BTreeMap<String, usize>,
     pub errors: Vec<String>,
     pub soft: Vec<String>,
+    pub uncontracted: Vec<String>,
+    pub consts_done: BTreeSet<String>,
+    pub cur_fn: String,
+    pub dropbody: BTreeSet<String>,
+    pub dropped: Vec<String>,
+    pub dropped_notes: Vec<String>,
     pub files: BTreeMap<String, syn::File>,
     pub file_ranges: BTreeMap<String, (usize, usize)>,
     pub local_mods: BTreeSet<String>,   // child modules declared in the files read so far: paths rooted there are crate-local (rule N1)
@@ -35,7 +41,13 @@ pub struct Ctx {
 }
 impl Ctx {
     pub fn fire(&mut self, rule: &str) { *self.rules.entry(rule.to_string()).or_insert(0) += 1; }
-    pub fn err(&mut self, msg: String) { self.errors.push(msg); }
+    /// an error raised while a function body is being rewritten is attributed to that function; for a function whose body the driver
+    /// asked to leave out (`--dropbody`) it is only a note
+    pub fn err(&mut self, msg: String) {
+        if self.cur_fn.is_empty() { self.errors.push(msg); }
+        else if self.dropbody.contains(&self.cur_fn) { self.dropped_notes.push(format!("[in {}] {}", self.cur_fn, msg)); }
+        else { self.errors.push(format!("[in {}] {}", self.cur_fn, msg)); }
+    }
     fn file(&mut self, rel: &str) -> Option<syn::File> {
         if !self.files.contains_key(rel) {
             let p = self.repo.join(rel);
@@ -484,6 +496,10 @@ fn emit_fn(cx: &mut Ctx, specs: &mut Specs, em: &mut Emitter, ex: &Extract, file
             if fields.iter().any(|n| n == "self") { cx.err(format!("outside dialect: async block {} of {} captures `self` as a whole", k, ex.path)); }
         }
     }
+    // from here on errors belong to this function (its name in the generated file and in the map)
+    let final_name = if let Some(k) = ex.opt("key") { k } else if (!lifted && fd.im.is_some()) || in_trait.is_some() { ex.path.clone() } else { name.clone() };
+    cx.cur_fn = final_name.clone();
+    let drop_this = cx.dropbody.contains(&final_name);
     // A6: `impl Future for T { fn poll(self: Pin<&mut Self>, cx) -> Poll<O> { <place>.poll_unpin(cx).map(|p| F) } }` -> `fn await_(&mut self) -> O { let p = <place>.poll_ready(); F }`
     if ex.opt("poll").as_deref() == Some("yes") {
         match rewrite::a6_poll_to_await(&mut f, cx) { true => { cx.fire("A6"); ret_ty = match &f.sig.output { syn::ReturnType::Type(_, t) => Some((**t).clone()), _ => None };
@@ -507,7 +523,7 @@ fn emit_fn(cx: &mut Ctx, specs: &mut Specs, em: &mut Emitter, ex: &Extract, file
     let mut_self = recv.as_ref().map(|r| r.reference.is_none() && r.mutability.is_some()).unwrap_or(false);
     let mut rw = Rw::new(cx, lifted, binders, name.clone());
     rw.self_to_this = mut_self && !lifted;
-    rw.lift_prefix = { let p = match ex.opt("key") { Some(k) => k.replace("::", "__").replace('@', "_"), None => ex.path.rsplit('@').next().unwrap().replace("::", "__") }; if lifted { format!("{}__async", p) } else { p } };
+    rw.lift_prefix = { let p = match ex.opt("key") { Some(k) => k.replace("::", "__").replace('@', "_"), None => ex.path.rsplit('@').next().unwrap().replace("::", "__") }; let p: String = p.chars().map(|c| if c.is_ascii_alphanumeric() || c == '_' { c } else { '_' }).collect(); if lifted { format!("{}__async", p) } else { p } };
     rw.typed_ctors = specs.sections.keys().filter_map(|k| k.strip_prefix("sig ").map(|s| s.to_string())).collect();
     rw.typed_caps = specs.sections.keys().filter_map(|k| k.strip_prefix("captype ").map(|s| s.to_string())).collect();
     for inp in &f.sig.inputs { if let syn::FnArg::Typed(pt) = inp { if let syn::Pat::Ident(pi) = &*pt.pat { if let syn::Type::ImplTrait(it) = &*pt.ty { if it.bounds.iter().any(|b| if let syn::TypeParamBound::Trait(tb) = b { tb.path.segments.last().map(|s| s.ident == "Into").unwrap_or(false) } else { false }) { rw.into_params.insert(pi.ident.to_string()); } } } } }
@@ -575,6 +591,22 @@ fn emit_fn(cx: &mut Ctx, specs: &mut Specs, em: &mut Emitter, ex: &Extract, file
     let fn_ident = if let Some(r) = ex.opt("rename") { r } else if in_impl || in_trait.is_some() { f.sig.ident.to_string() } else { name.clone() };
     let indent = if in_impl || in_trait.is_some() { "    " } else { "" };
 
+    // K1: a file-level `const NAME: T = <literal>;` the body refers to is extracted with it (once)
+    {
+        struct C { names: BTreeSet<String> }
+        impl<'ast> syn::visit::Visit<'ast> for C { fn visit_path(&mut self, p: &'ast syn::Path) { if let Some(id) = p.get_ident() { let n = id.to_string(); if n.len() > 1 && n.chars().all(|c| c.is_ascii_uppercase() || c.is_ascii_digit() || c == '_') && n.chars().next().unwrap().is_ascii_uppercase() { self.names.insert(n); } } syn::visit::visit_path(self, p); } }
+        let mut c = C { names: BTreeSet::new() };
+        syn::visit::Visit::visit_block(&mut c, &block);
+        let mut items = vec![]; all_items(&file.items, &mut items);
+        for n in c.names { if cx.consts_done.contains(&n) { continue; }
+            for it in &items { if let syn::Item::Const(k) = it { if k.ident == n.as_str() {
+                let lit = matches!(&*k.expr, syn::Expr::Lit(_));
+                if lit { let mut t = (*k.ty).clone(); rewrite::map_type(&mut t, cx);
+                    em.comment(&format!("// @extracted const `{}` from {}:{}", n, ex.file, k.ident.span().start().line));
+                    em.raw(&format!("pub const {}: {} = {};", n, tidy(&t.to_token_stream().to_string()), tidy(&k.expr.to_token_stream().to_string()))); em.raw(""); cx.fire("K1"); cx.consts_done.insert(n.clone()); }
+            } } }
+        }
+    }
     // ---- emit
     em.comment(&format!("// @extracted {} `{}` from {}:{} as `{}`{}", ex.kind, ex.path, ex.file, src_line, name, if captured.is_empty() { String::new() } else { format!(" captures self.{{{}}}", captured.iter().map(|c| c.0.clone()).collect::<Vec<_>>().join(",")) }));
     let wrap = in_impl && in_trait.is_none();
@@ -592,6 +624,7 @@ fn emit_fn(cx: &mut Ctx, specs: &mut Specs, em: &mut Emitter, ex: &Extract, file
     let is_stub = ex.kind == "stub";
     let is_decl = ex.kind == "decl";
     if is_stub { em.raw(&format!("{}#[verifier::external_body] // @stub contract proved in another unit", indent)); }
+    if drop_this && !is_stub && !is_decl { em.raw(&format!("{}#[verifier::external_body] // @dropped: this body is outside the dialect on this tree; its contract is assumed for the rest of the unit and its own obligations are undecided", indent)); cx.dropped.push(final_name.clone()); }
     let fn_start = em.line();
     em.raw(&format!("{}{}fn {}{}({}){}{}", indent, vis, fn_ident, gtxt, params.join(", "), ret, wtxt));
     match specs.get(&format!("fn {}", name)) { Some(s) => em.raw_block(&s, ""), None => { if is_stub { cx.err(format!("lost anchor: stub `{}` has no contract section", name)); } } }
@@ -603,6 +636,7 @@ fn emit_fn(cx: &mut Ctx, specs: &mut Specs, em: &mut Emitter, ex: &Extract, file
     let frame_facts = rewrite::immutable_place_lets(&block);
     for k in 0..nloops {
         let mut inv = specs.get(&format!("loop {} {}", name, k)).unwrap_or_default();
+        if inv.trim().is_empty() && !is_stub && !is_decl && !drop_this { cx.soft.push(format!("lost anchor: loop {} of `{}` has no loop contract (a loop was added to the code); what the verifier says about this function is not a verdict", k, name)); cx.uncontracted.push(name.clone()); }
         if !frame_facts.is_empty() && !inv.trim().is_empty() {
             let mut lines: Vec<String> = inv.lines().map(|l| l.to_string()).collect();
             if let Some(pos) = lines.iter().position(|l| { let t = l.trim(); t == "invariant" || t == "invariant_except_break" }) {
@@ -614,7 +648,7 @@ fn emit_fn(cx: &mut Ctx, specs: &mut Specs, em: &mut Emitter, ex: &Extract, file
         loopspecs.insert(k, (inv, entry_text(cx, specs.get(&format!("proof {} loop {} start", name, k))), specs.get(&format!("proof {} loop {} end", name, k))));
     }
     if is_decl { em.raw(&format!("{};", indent)); }
-    else if is_stub { em.raw(&format!("{}{{ unimplemented!() }}", indent)); } else { em.body(&block, if in_impl || in_trait.is_some() { 1 } else { 0 }, &ex.file, proof_entry.as_deref(), &loopspecs); }
+    else if is_stub || drop_this { em.raw(&format!("{}{{ unimplemented!() }}", indent)); } else { em.body(&block, if in_impl || in_trait.is_some() { 1 } else { 0 }, &ex.file, proof_entry.as_deref(), &loopspecs); }
     if wrap { em.raw("}"); }
     let fn_end = em.line();
     em.functions.push(emit::FnInfo { name: name.clone(), file: ex.file.clone(), src_line, gen_start: fn_start, gen_end: fn_end, kind: ex.kind.clone(), path: ex.path.clone(), loops: nloops, captured: captured.iter().map(|c| c.0.clone()).collect() });
@@ -635,6 +669,7 @@ fn emit_fn(cx: &mut Ctx, specs: &mut Specs, em: &mut Emitter, ex: &Extract, file
         em.functions.push(emit::FnInfo { name: format!("{}__captures", name), file: ex.file.clone(), src_line, gen_start: start, gen_end: em.line(), kind: "fn".into(), path: ex.path.clone(), loops: 0, captured: captured.iter().map(|c| c.0.clone()).collect() });
         em.raw("");
     } }
+    cx.cur_fn = String::new();
     // ---- closures / async blocks used as values (rules L1, A3)
     let mut all_gens: Vec<&syn::Generics> = vec![];
     let ig2; if let Some(im) = &fd.im { ig2 = im.generics.clone(); all_gens.push(&ig2); }
@@ -728,7 +763,7 @@ fn emit_lifted(cx: &mut Ctx, specs: &mut Specs, em: &mut Emitter, gens: &[&syn::
             let inner = sg.trim_start_matches('(').trim_end_matches(')').to_string();
             let names: Vec<String> = inner.split(',').map(|p| p.split(':').next().unwrap_or("").trim().to_string()).collect();
             let mut extra = vec![];
-            for (i, c) in lc.captures.iter().enumerate() { let cn = if c == "self" { "this".to_string() } else { c.replace("self.", "self_") }; if !names.contains(&cn) { match lc.cap_types.get(i).cloned().flatten() { Some(t) => extra.push(format!("{}: {}", cn, t)), None => cx.err(format!("outside dialect: closure `{}` captures `{}` which its contract signature does not name and whose type is not known", lc.name, c)) } } }
+            for (i, c) in lc.captures.iter().enumerate() { let cn = if c == "self" { "this".to_string() } else { c.replace("self.", "self_") }; if !names.contains(&cn) { match lc.cap_types.get(i).cloned().flatten() { Some(t) => extra.push(format!("{}: {}", cn, t)), None => extra.push(format!("{}: impl Sized", cn)) } } }
             if !extra.is_empty() {
                 // parameters in capture order (the order the construction site passes them in)
                 let mut parts: Vec<String> = vec![]; let mut depth = 0i32; let mut cur = String::new();
@@ -760,6 +795,13 @@ fn emit_lifted(cx: &mut Ctx, specs: &mut Specs, em: &mut Emitter, gens: &[&syn::
     em.raw("");
     // ---- lifted body, only when the spec gives its signature
     let Some(sig) = specs.get(&format!("sig {}", lc.name)).map(|t| positional(t, lc)) else { return vec![]; };
+    cx.cur_fn = lc.name.clone();
+    let r = emit_lifted_body(cx, specs, em, gens, lc, file, sig, gtxt_all, wtxt_all);
+    cx.cur_fn = String::new();
+    r
+}
+fn emit_lifted_body(cx: &mut Ctx, specs: &mut Specs, em: &mut Emitter, gens: &[&syn::Generics], lc: &rewrite::LiftedClosure, file: &str, sig: String, gtxt_all: String, wtxt_all: String) -> Vec<rewrite::LiftedClosure> {
+    let drop_this = cx.dropbody.contains(&lc.name);
     let mut block = lc.body.clone();
     rewrite::inline_tail_async(&mut block, cx);
     let fnmut;
@@ -790,6 +832,7 @@ fn emit_lifted(cx: &mut Ctx, specs: &mut Specs, em: &mut Emitter, gens: &[&syn::
     let mut probes: Vec<(usize, String)> = vec![];
     if cx.probe { rewrite::insert_probes(&mut block, &lc.name, em, &mut probes); }
     if nloops > 0 { em.raw("#[verifier::exec_allows_no_decreases_clause]"); }
+    if drop_this { em.raw("#[verifier::external_body] // @dropped: this body is outside the dialect on this tree; its contract is assumed for the rest of the unit and its own obligations are undecided"); cx.dropped.push(lc.name.clone()); }
     let fn_start = em.line();
     let sig = sig.trim();
     // `(params) -> ret`  ;  the ghost world parameter is appended unless the signature says `nowrld`
@@ -816,8 +859,9 @@ fn emit_lifted(cx: &mut Ctx, specs: &mut Specs, em: &mut Emitter, gens: &[&syn::
     if let Some(sp) = specs.get(&format!("fn {}", lc.name)) { em.raw_block(&positional(sp, lc), ""); }
     let proof_entry = entry_text(cx, specs.get(&format!("proof {} entry", lc.name)));
     let mut loopspecs: BTreeMap<usize, (String, Option<String>, Option<String>)> = BTreeMap::new();
+    for k in 0..nloops { if !drop_this && specs.sections.get(&format!("loop {} {}", lc.name, k)).map(|t| t.trim().is_empty()).unwrap_or(true) { cx.soft.push(format!("lost anchor: loop {} of `{}` has no loop contract (a loop was added to the code); what the verifier says about this function is not a verdict", k, lc.name)); cx.uncontracted.push(lc.name.clone()); } }
     for k in 0..nloops { loopspecs.insert(k, (specs.get(&format!("loop {} {}", lc.name, k)).unwrap_or_default(), entry_text(cx, specs.get(&format!("proof {} loop {} start", lc.name, k))), specs.get(&format!("proof {} loop {} end", lc.name, k)))); }
-    em.body(&block, 0, file, proof_entry.as_deref(), &loopspecs);
+    if drop_this { em.raw("{ unimplemented!() }"); } else { em.body(&block, 0, file, proof_entry.as_deref(), &loopspecs); }
     em.functions.push(emit::FnInfo { name: lc.name.clone(), file: file.to_string(), src_line: lc.line, gen_start: fn_start, gen_end: em.line(), kind: "fn".into(), path: lc.name.clone(), loops: nloops, captured: lc.captures.clone() });
     for (id, wh) in probes { em.probes.push((id, lc.name.clone(), wh)); }
     em.raw("");
@@ -935,7 +979,7 @@ fn check_trait_shape(cx: &mut Ctx, ex: &Extract) {
 
 fn main() {
     let args: Vec<String> = std::env::args().collect();
-    let mut unit_path = None; let mut repo = PathBuf::from("/repo"); let mut out = None; let mut map = None; let mut probe = false; let mut root = PathBuf::from(".");
+    let mut unit_path = None; let mut repo = PathBuf::from("/repo"); let mut out = None; let mut map = None; let mut probe = false; let mut root = PathBuf::from("."); let mut dropbody: BTreeSet<String> = BTreeSet::new();
     let mut i = 1;
     while i < args.len() {
         match args[i].as_str() {
@@ -945,13 +989,14 @@ fn main() {
             "--map" => { map = Some(PathBuf::from(&args[i + 1])); i += 1; }
             "--root" => { root = PathBuf::from(&args[i + 1]); i += 1; }
             "--probe" => probe = true,
+            "--dropbody" => { i += 1; for n in args[i].split(',') { if !n.trim().is_empty() { dropbody.insert(n.trim().to_string()); } } }
             other => { eprintln!("hx: unknown argument {}", other); std::process::exit(2); }
         }
         i += 1;
     }
     let unit_path = unit_path.expect("--unit");
     let unit = match Unit::load(&unit_path) { Ok(u) => u, Err(e) => { eprintln!("hx: {}", e); std::process::exit(2); } };
-    let mut cx = Ctx { unit, repo, probe, rules: BTreeMap::new(), errors: vec![], soft: vec![], files: BTreeMap::new(), file_ranges: BTreeMap::new(), local_mods: BTreeSet::new(), pending: vec![] };
+    let mut cx = Ctx { unit, repo, probe, rules: BTreeMap::new(), errors: vec![], soft: vec![], uncontracted: vec![], consts_done: BTreeSet::new(), cur_fn: String::new(), dropbody: dropbody.clone(), dropped: vec![], dropped_notes: vec![], files: BTreeMap::new(), file_ranges: BTreeMap::new(), local_mods: BTreeSet::new(), pending: vec![] };
     let mut specs = Specs::default();
     specs.defines = cx.unit.defines.clone();
     for s in cx.unit.specs.clone() { if let Err(e) = specs.load(&root.join(&s)) { eprintln!("hx: {}", e); std::process::exit(2); } }
@@ -986,6 +1031,7 @@ fn main() {
     for k in specs.sections.keys() { if !specs.used.contains(k) && !specs.exempt.contains(k) { cx.soft.push(format!("lost anchor: spec section `@{}` matches no extracted item", k)); } }
     if let Some(o) = &out { std::fs::write(o, em.text()).expect("write out"); } else { print!("{}", em.text()); }
     if let Some(m) = &map { std::fs::write(m, em.map_json(&cx)).expect("write map"); }
+    for n in &cx.dropped_notes { eprintln!("hx: note: dropped body: {}", n); }
     if !cx.errors.is_empty() { for e in &cx.errors { eprintln!("hx: {}", e); } std::process::exit(2); }
     if !cx.soft.is_empty() { for e in &cx.soft { eprintln!("hx: {}", e); } std::process::exit(3); }
     let _ = quote!();
